@@ -18,7 +18,7 @@ func SlurpfileFunction(env *Zlisp, name string, args []Sexp) (Sexp, error) {
 	case *SexpStr:
 		fn = fna.S
 	default:
-		return SexpNull, fmt.Errorf("slurp requires a string path to read. we got type %T / value = %v", args[0], args[0])
+		return SexpNull, fmt.Errorf("slurp requires a string path to read. we got type %T / value = %s", args[0], args[0].SexpString(nil))
 	}
 
 	if !FileExists(string(fn)) {
@@ -75,7 +75,7 @@ func WriteToFileFunction(name string) ZlispUserFunction {
 		case *SexpStr:
 			fn = fna.S
 		default:
-			return SexpNull, fmt.Errorf("owrite requires a string (SexpStr) path to write to as the second argument. we got type %T / value = %v", args[1], args[1])
+			return SexpNull, fmt.Errorf("owrite requires a string (SexpStr) path to write to as the second argument. we got type %T / value = %s", args[1], args[1].SexpString(nil))
 		}
 
 		if name == "write" || name == "writef" || name == "save" {
